@@ -215,6 +215,34 @@ func runC03(c *Ctx) {
 						c.ok("R2", "Write in sendPacket", pos(in), "frame bytes written by the framing function")
 						return
 					}
+					if conny && fn.Name() == "Write" {
+						// a writer type wrapped round the connection: its Write is part of the framing function when
+						// the framing function is its only caller (resolved on the VTA call graph)
+						only, callers := true, 0
+						var visit func(f *ssa.Function, d int)
+						visit = func(f *ssa.Function, d int) {
+							node := p.VTA().Nodes[f]
+							if node == nil || d > 3 {
+								return
+							}
+							for _, e := range node.In {
+								cf := e.Caller.Func
+								if cf.Synthetic != "" && cf != pkgSend {
+									visit(cf, d+1) // pointer-receiver and bound-method wrappers
+									continue
+								}
+								callers++
+								if cf != pkgSend {
+									only = false
+								}
+							}
+						}
+						visit(fn, 0)
+						if only && callers > 0 {
+							c.ok("R2", "Write in "+fnName(fn), pos(in), "a writer wrapped round the connection, called by sendPacket(w, m) only")
+							return
+						}
+					}
 					c.check(!conny, "R2", "Write in "+fnName(fn), pos(in), "not a write to the connection", "bytes are written to the connection outside sendPacket")
 				})
 			}
@@ -885,6 +913,7 @@ func runC04(c *Ctx) {
 
 	// ---------- R9 a failed send is never taken for end of file ----------
 	checkEOFIsTheServersWord(c, "R9")
+	checkWriteFailureLatched(c, "R10")
 
 	// ---------- R8 no client lock is leaked: a later call would hang ----------
 	checkLockBalance(c, "R8", func(fn *ssa.Function) bool { return !isServerSide(fn) && outermost(fn).Package() == p.Sftp }, 15)
@@ -1371,4 +1400,109 @@ func checkEOFIsTheServersWord(c *Ctx, rule string) {
 		})
 	}
 	c.check(n >= 3, rule, "EOF tests on the download paths", "?", fmt.Sprintf("%d tests", n), fmt.Sprintf("only %d EOF tests found on the download paths", n))
+}
+
+// checkWriteFailureLatched (C04.R10): sendPacket(w, m) puts a frame on the wire in more than one Write.  When one of
+// them fails, the peer holds a torn frame and reads whatever is sent next as the rest of it, so the connection is lost
+// at that moment, whatever the transport says later: the writer that (*conn).sendPacket hands to the framing function
+// must remember the first failure and close the transport (the peer then sees the end of the stream, the receiver ends
+// and every waiter is told), and must refuse to write once a failure is remembered.  With the connection itself as the
+// writer the error reaches the one caller whose packet it was; the next call writes behind the torn frame and waits
+// for ever for a reply, and Wait never returns.
+func checkWriteFailureLatched(c *Ctx, rule string) {
+	p := c.P
+	pkgSend := p.Func("sendPacket")
+	connSend := p.Func("(*conn).sendPacket")
+	if pkgSend == nil || connSend == nil {
+		c.missing(rule, "sendPacket / (*conn).sendPacket")
+		return
+	}
+	n := 0
+	for _, in := range callsWhere(connSend, func(cc *ssa.CallCommon) bool { return cc.StaticCallee() == pkgSend }) {
+		n++
+		arg := in.(*ssa.Call).Call.Args[0]
+		var T types.Type
+		switch x := arg.(type) {
+		case *ssa.MakeInterface:
+			T = x.X.Type()
+		case *ssa.ChangeInterface:
+			T = x.X.Type()
+		}
+		key := "the writer (*conn).sendPacket frames into remembers a failed write"
+		if T == nil {
+			c.und(rule, key, p.Pos(in.Pos()), "the writer handed to sendPacket(w, m) is not a concrete value")
+			continue
+		}
+		sel := p.SSA.MethodSets.MethodSet(T).Lookup(p.Sftp.Pkg, "Write")
+		if sel == nil {
+			c.und(rule, key, p.Pos(in.Pos()), "no Write method found on "+T.String())
+			continue
+		}
+		w := p.SSA.MethodValue(sel)
+		if w == nil || w.Synthetic != "" || w.Blocks == nil {
+			c.bad(rule, key, p.Pos(in.Pos()), "the connection's transport is itself the writer of the framing function: a Write that fails (header out, payload not; a write deadline; EPIPE with the read side still open) is reported to the one caller whose packet it was and forgotten — the next request is written behind the torn frame and is never answered, and Wait never returns")
+			continue
+		}
+		c.looked(fnName(w))
+		writes := callsWhere(w, func(cc *ssa.CallCommon) bool { return cc.IsInvoke() && cc.Method.Name() == "Write" })
+		if len(writes) == 0 {
+			c.und(rule, key, p.Pos(w.Pos()), fnName(w)+" does not write to a transport")
+			continue
+		}
+		for _, wr := range writes {
+			call := wr.(*ssa.Call)
+			// (a) refused once a failure is remembered: dominated by the nil side of a test of an error field
+			latch := ""
+			for b := call.Block(); b != nil && latch == ""; b = b.Idom() {
+				for _, pred := range b.Preds {
+					for cv, truth := range edgeConds(b, pred) {
+						bo, ok := cv.(*ssa.BinOp)
+						if !ok || !isNilConst(bo.Y) || !((bo.Op == token.EQL && truth) || (bo.Op == token.NEQ && !truth)) {
+							continue
+						}
+						if u, ok := bo.X.(*ssa.UnOp); ok && u.Op == token.MUL {
+							if st, name, _, ok := fieldOf(u.X); ok && typeName(st) == "conn" && bo.X.Type().String() == "error" {
+								latch = name
+							}
+						}
+					}
+				}
+			}
+			// (b) a failure is remembered and the transport closed before returning
+			var failEdge *ssa.BasicBlock
+			for _, r := range *call.Referrers() {
+				ex, ok := r.(*ssa.Extract)
+				if !ok || ex.Index != 1 {
+					continue
+				}
+				for _, rr := range *ex.Referrers() {
+					if bo, ok := rr.(*ssa.BinOp); ok && bo.Op == token.NEQ && isNilConst(bo.Y) {
+						for _, r3 := range *bo.Referrers() {
+							if iff, ok := r3.(*ssa.If); ok {
+								failEdge = iff.Block().Succs[0]
+							}
+						}
+					}
+				}
+			}
+			stores, closes := false, false
+			if failEdge != nil && latch != "" {
+				stores = !reachFromBlock(failEdge, isReturn, func(in ssa.Instruction) bool {
+					st, ok := in.(*ssa.Store)
+					if !ok {
+						return false
+					}
+					t, name, _, ok := fieldOf(st.Addr)
+					return ok && typeName(t) == "conn" && name == latch && !isNilConst(st.Val)
+				})
+				closes = !reachFromBlock(failEdge, isReturn, func(in ssa.Instruction) bool {
+					cc := callOf(in)
+					return cc != nil && cc.IsInvoke() && cc.Method.Name() == "Close"
+				})
+			}
+			c.check(latch != "" && stores && closes, rule, key, p.Pos(call.Pos()), "tests conn."+latch+" before writing, stores the failure there and closes the transport",
+				fmt.Sprintf("%s does not latch a failed write (tested before writing: %v, failure stored: %v, transport closed: %v): after a Write that fails inside a frame the next request is written behind the torn frame and is never answered", fnName(w), latch != "", stores, closes))
+		}
+	}
+	c.check(n == 1, rule, "(*conn).sendPacket frames through sendPacket(w, m)", p.Pos(connSend.Pos()), "one call", fmt.Sprintf("%d calls of sendPacket(w, m) in (*conn).sendPacket", n))
 }
